@@ -171,6 +171,29 @@ def negative_sierra_templates(out_dir):
     }
     for k, v in body.items():
         progs[k] = _HDR + v
+    # frame state (environment/frame_state.rs): where alloc_local / finalize_locals are allowed.  Not part of the Coq
+    # model (DESIGN §3 C15: "the real check is stricter there"), so these are decided by the rule that every negative
+    # template must be REJECTED by the real pipeline.
+    fs_hdr = ("type felt252 = felt252;\ntype UF = Uninitialized<felt252>;\nlibfunc alloc_f = alloc_local<felt252>;\n"
+              "libfunc finalize_locals = finalize_locals;\nlibfunc store_f = store_temp<felt252>;\n"
+              "libfunc local_f = store_local<felt252>;\nlibfunc drop_f = drop<felt252>;\nlibfunc drop_uf = drop<UF>;\n"
+              "libfunc disable_ap_tracking = disable_ap_tracking;\nlibfunc enable_ap_tracking = enable_ap_tracking;\n")
+    tail = "\n\nverif::f@0([0]: felt252, [1]: felt252) -> (felt252);\n"
+    use_local = "local_f([2], [1]) -> ([2]);\ndrop_f([0]) -> ();\nstore_f([2]) -> ([2]);\nreturn([2]);"
+    fs = {
+        # an ap change between the first alloc_local and finalize_locals (the local's slot is no longer where fp+k says)
+        "fs_ap_change_before_finalize": "alloc_f() -> ([2]);\nstore_f([0]) -> ([0]);\nfinalize_locals() -> ();\n" + use_local,
+        # ... and between two alloc_locals
+        "fs_ap_change_between_allocs": "alloc_f() -> ([2]);\nstore_f([0]) -> ([0]);\nalloc_f() -> ([3]);\ndrop_uf([3]) -> ();\nfinalize_locals() -> ();\n" + use_local,
+        "fs_alloc_after_finalize": "finalize_locals() -> ();\nalloc_f() -> ([2]);\n" + use_local,
+        "fs_double_finalize": "alloc_f() -> ([2]);\nfinalize_locals() -> ();\nfinalize_locals() -> ();\n" + use_local,
+        "fs_missing_finalize": "alloc_f() -> ([2]);\ndrop_uf([2]) -> ();\ndrop_f([1]) -> ();\nstore_f([0]) -> ([0]);\nreturn([0]);",
+        "fs_finalize_untracked": "alloc_f() -> ([2]);\ndisable_ap_tracking() -> ();\nfinalize_locals() -> ();\n" + use_local,
+        "fs_alloc_untracked": "disable_ap_tracking() -> ();\nalloc_f() -> ([2]);\nfinalize_locals() -> ();\n" + use_local,
+        "fs_finalize_after_enable": "alloc_f() -> ([2]);\ndisable_ap_tracking() -> ();\nenable_ap_tracking() -> ();\nfinalize_locals() -> ();\n" + use_local,
+    }
+    for k, v in fs.items():
+        progs[k] = fs_hdr + v + tail
     for f in glob.glob(os.path.join(out_dir, "n_*.sierra")):
         os.unlink(f)
     for k, v in progs.items():
